@@ -75,11 +75,10 @@ theorem stepIter_q {sh sh' : Shared} {t : Tid} {it it' : Iter}
       · simp only [Option.some.injEq, Prod.mk.injEq] at h
         obtain ⟨_, rfl⟩ := h
         simp
-      · unfold step138ok at h
-        split at h <;> (
+      · split at h <;> (
           simp only [Option.some.injEq, Prod.mk.injEq] at h
           obtain ⟨_, rfl⟩ := h
-          simp)
+          simp [raiseTo])
   · cases h
 
 /-- thread `t` may run: the invariant holds and every OTHER thread is outside the critical section -/
